@@ -135,14 +135,14 @@ func c09Cases(prod string, tier string) []c09Case {
 			for _, fb := range vecForms(mn[1]) {
 				w := func(a, b *model.ND) *model.ND { return contract(a, vecOf(b), []int{1}, []int{0}) }
 				cs = append(cs, c09Case{"Dense.MatVecMul", []int{mn[0], mn[1]}, fb, w, false, false, allModes, func(a, b *tensor.Dense, o []tensor.FuncOpt) (interface{}, error) { return a.MatVecMul(b, o...) }})
-				cs = append(cs, c09Case{"tensor.MatVecMul", []int{mn[0], mn[1]}, fb, w, false, false, []string{"safe"}, func(a, b *tensor.Dense, o []tensor.FuncOpt) (interface{}, error) { return tensor.MatVecMul(a, b, o...) }})
+				cs = append(cs, c09Case{"tensor.MatVecMul", []int{mn[0], mn[1]}, fb, w, false, false, allModes, func(a, b *tensor.Dense, o []tensor.FuncOpt) (interface{}, error) { return tensor.MatVecMul(a, b, o...) }})
 			}
 		}
 	case "MatMul":
 		for _, mkn := range [][3]int{{2, 3, 4}, {3, 2, 3}, {4, 4, 4}, {1, 3, 2}, {3, 1, 3}, {2, 3, 1}, {2, 2, 2}} {
 			w := func(a, b *model.ND) *model.ND { return contract(a, b, []int{1}, []int{0}) }
 			cs = append(cs, c09Case{"Dense.MatMul", []int{mkn[0], mkn[1]}, []int{mkn[1], mkn[2]}, w, false, false, allModes, func(a, b *tensor.Dense, o []tensor.FuncOpt) (interface{}, error) { return a.MatMul(b, o...) }})
-			cs = append(cs, c09Case{"tensor.MatMul", []int{mkn[0], mkn[1]}, []int{mkn[1], mkn[2]}, w, false, false, []string{"safe"}, func(a, b *tensor.Dense, o []tensor.FuncOpt) (interface{}, error) { return tensor.MatMul(a, b, o...) }})
+			cs = append(cs, c09Case{"tensor.MatMul", []int{mkn[0], mkn[1]}, []int{mkn[1], mkn[2]}, w, false, false, allModes, func(a, b *tensor.Dense, o []tensor.FuncOpt) (interface{}, error) { return tensor.MatMul(a, b, o...) }})
 		}
 	case "Outer":
 		for _, mn := range [][2]int{{2, 3}, {3, 2}, {4, 2}, {2, 4}, {3, 3}} {
@@ -150,6 +150,7 @@ func c09Cases(prod string, tier string) []c09Case {
 				for _, fb := range vecForms(mn[1]) {
 					w := func(a, b *model.ND) *model.ND { return contract(vecOf(a), vecOf(b), nil, nil) }
 					cs = append(cs, c09Case{"Dense.Outer", fa, fb, w, false, false, allModes, func(a, b *tensor.Dense, o []tensor.FuncOpt) (interface{}, error) { return a.Outer(b, o...) }})
+					cs = append(cs, c09Case{"tensor.Outer", fa, fb, w, false, false, allModes, func(a, b *tensor.Dense, o []tensor.FuncOpt) (interface{}, error) { return tensor.Outer(a, b, o...) }})
 				}
 			}
 		}
@@ -209,7 +210,7 @@ func c09Cases(prod string, tier string) []c09Case {
 		for _, fa := range vecForms(3) {
 			for _, fb := range vecForms(3) {
 				w := func(a, b *model.ND) *model.ND { return contract(vecOf(a), vecOf(b), []int{0}, []int{0}) }
-				cs = append(cs, c09Case{"Dot(vec,vec)", fa, fb, w, false, false, []string{"safe"}, dot})
+				cs = append(cs, c09Case{"Dot(vec,vec)", fa, fb, w, false, false, allModes, dot})
 			}
 		}
 		// matrix . vector -> vector of m
@@ -227,9 +228,9 @@ func c09Cases(prod string, tier string) []c09Case {
 		cs = append(cs, c09Case{"Dot(mat,mat)", []int{2, 3}, []int{3, 4}, wmm, false, false, allModes, dot})
 		cs = append(cs, c09Case{"Dot(mat,mat)", []int{3, 3}, []int{3, 3}, wmm, false, false, allModes, dot})
 		// higher rank: last axis of a with second-to-last of b
-		cs = append(cs, c09Case{"Dot(nd,mat)", []int{2, 3, 4}, []int{4, 2}, func(a, b *model.ND) *model.ND { return contract(a, b, []int{2}, []int{0}) }, false, false, []string{"safe", "reuse"}, dot})
-		cs = append(cs, c09Case{"Dot(nd,nd)", []int{2, 3, 4}, []int{2, 4, 3}, func(a, b *model.ND) *model.ND { return contract(a, b, []int{2}, []int{1}) }, false, false, []string{"safe"}, dot})
-		cs = append(cs, c09Case{"Dot(mat,nd)", []int{2, 3}, []int{2, 3, 2}, func(a, b *model.ND) *model.ND { return contract(a, b, []int{1}, []int{1}) }, false, false, []string{"safe"}, dot})
+		cs = append(cs, c09Case{"Dot(nd,mat)", []int{2, 3, 4}, []int{4, 2}, func(a, b *model.ND) *model.ND { return contract(a, b, []int{2}, []int{0}) }, false, false, allModes, dot})
+		cs = append(cs, c09Case{"Dot(nd,nd)", []int{2, 3, 4}, []int{2, 4, 3}, func(a, b *model.ND) *model.ND { return contract(a, b, []int{2}, []int{1}) }, false, false, allModes, dot})
+		cs = append(cs, c09Case{"Dot(mat,nd)", []int{2, 3}, []int{2, 3, 2}, func(a, b *model.ND) *model.ND { return contract(a, b, []int{1}, []int{1}) }, false, false, allModes, dot})
 	}
 	return cs
 }
